@@ -17,7 +17,7 @@ Protocol lines of area `tsprops` (self-contained: programs + interleaving on one
     env     := - | <hexkey>:<val>&<hexkey>:<val>...          val := n | s<hex>
     route   := H <op>* <outcome> | NF <line> <text> | NA <line> <text> <allow> | BP <line>
     op      := path | method | query <k> | cookie <k> | header <name> <wsgikey> | envget <k> | body
-             | form <k> | file <name> <field> | url | status <code> <line> | rdstatus | sethdr <k> <v> | addhdr <k> <v>
+             | form <k> | file <name> <field> | url | kwargs | urlargs | scookie <k> | status <code> <line> | rdstatus | sethdr <k> <v> | addhdr <k> <v>
              | rdhdr <k> | setcookie <k> <rendered> | ctype <v> | copy | cpath <n> | cset <n> <k> <v>
              | cheader <n> <name> <wsgikey>
              | nested <req> | construct <app>
@@ -104,6 +104,9 @@ mutual
     | "form" :: k :: r => some (.form (str k), r)
     | "file" :: n :: f :: r => some (.file (str n) (str f), r)
     | "url" :: r => some (.url, r)
+    | "kwargs" :: r => some (.kwargs, r)
+    | "urlargs" :: r => some (.urlArgs, r)
+    | "scookie" :: k :: r => some (.scookie (str k), r)
     | "status" :: c :: l :: r => do pure (.status (← c.toInt?) (str l), r)
     | "rdstatus" :: r => some (.rdStatus, r)
     | "sethdr" :: k :: v :: r => some (.setHdr (str k) (str v), r)
